@@ -223,6 +223,9 @@ REFACTORINGS = [
     ('refactoring R10: minify(), the command line module, parent annotation and tree comparison rewritten', 'refactor_r10', ALL),
     ('refactoring R11: f-string and string quoting rewritten', 'refactor_r11', ALL),
     ('refactoring R12: 30 modules rewritten at once (4000-line patch: internals renamed, inlined, split, moved between modules)', 'refactor_r12', ALL),
+    # third wave
+    ('refactoring R13: rename package - recursion to explicit stacks, isinstance chains to dispatch tables walked by MRO, classes split into mixins, private attributes renamed', 'refactor_r13', ALL),
+    ('refactoring R16: command line module - parser built from tables, os.walk replaced by os.scandir, per-file processing in a class, streams through variables', 'refactor_r16', ALL),
 ]
 
 
